@@ -210,9 +210,13 @@ func (n *constructorNode) Call(c containerStore) (err error) {
 		}()
 	}
 
+	// Whether the function returned: recover yields nil for a panic(nil) in
+	// programs built with GODEBUG=panicnil=1 (the default for go <= 1.20),
+	// so a nil value alone does not mean that there was no panic.
+	returned := false
 	if n.s.recoverFromPanics {
 		defer func() {
-			if p := recover(); p != nil {
+			if p := recover(); p != nil || !returned {
 				err = PanicError{
 					fn:    n.location,
 					Panic: p,
@@ -227,6 +231,7 @@ func (n *constructorNode) Call(c containerStore) (err error) {
 	n.running = true
 	defer func() { n.running = false }()
 	results := c.invoker()(reflect.ValueOf(n.ctor), args)
+	returned = true
 	if err = n.resultList.ExtractList(receiver, false /* decorating */, results); err != nil {
 		return errConstructorFailed{Func: n.location, Reason: err}
 	}
